@@ -17,7 +17,7 @@ from vf.lang import (
 )
 from vf.props.c01 import ast_signature, evaluate_against_oracle
 
-MODES = ["eager", "lazy", "reflect", "normalize"]
+MODES = ["eager", "lazy", "reflect", "normalize", "normalize"]
 
 
 def gen_self_subst(src, opts):
@@ -80,7 +80,17 @@ def gen_capture_probe(src, opts):
         body = ("bin", "add", body, g.expr(("real", ()), 1, avail - {j}))
     binder = g.pick(["red", "red", "lam", "integrate"])
     if binder == "red":
-        bound = ("red", g.pick(["add", "logaddexp", "max", "mul"]), body, ((j, sj),))
+        op_ = g.pick(["add", "logaddexp", "max", "mul"])
+        others_ = [n_ for n_ in names[2:] if n_ not in (j, kname)]
+        if others_ and g.chance(0.6):
+            # two reductions in two steps (normalize fuses them into one Contraction whose bound names are renamed at
+            # different times); the body mentions both reduced names
+            i2 = others_[0]
+            t2 = ("ten", ((i2, g.sizes[i2]), (j, sj)), (), "real", g.real_data(g.sizes[i2] * sj), False)
+            body2 = ("bin", "mul" if op_ != "mul" else "add", body, t2)
+            bound = ("red", op_, ("red", op_, body2, ((i2, g.sizes[i2]),)), ((j, sj),))
+        else:
+            bound = ("red", op_, body, ((j, sj),))
     elif binder == "lam":
         bound = ("unp", "sum", (None, False), ("lam", j, sj, body))
     else:
@@ -113,7 +123,9 @@ def gen_capture_probe(src, opts):
 def cases(opts):
     base = exprs(opts, None)
     probe = st.integers(0, 2**40).map(robust_gen(lambda s: gen_capture_probe(SeedSource(s), opts)))
-    return st.one_of(_cases(opts), _cases(opts), _cases(opts), probe)
+    # one_of flattens nested one_ofs: _cases contributes six equally weighted branches, so the probe is listed four
+    # times to make up 40 % of the cases
+    return st.one_of(_cases(opts), probe, probe, probe, probe)
 
 
 def _cases(opts):
@@ -344,10 +356,26 @@ class C05(Prop):
             b in free for b in binders
         )
 
+        import zlib
+
+        # a substitution at the root is applied either inside the deferring context or afterwards, by the caller,
+        # under the default interpretation (the term it is applied to is then an already normalised / lazy binder)
+        late = mode != "eager" and node[0] == "sub" and zlib.crc32(show(node).encode()) % 3 != 0
+        if late:
+            stt.count("root-substitution-applied-after-the-context")
+
         def run(ast, tag):
             try:
-                with getattr(I, mode):
-                    t = build(ast)
+                if late and ast[0] == "sub":
+                    with getattr(I, mode):
+                        inner = build(ast[1])
+                    kw = {}
+                    for k_, v_ in ast[2]:
+                        kw[k_] = v_[1] if v_[0] in ("pynum", "pyname") else build(v_)
+                    t = inner(**kw)
+                else:
+                    with getattr(I, mode):
+                        t = build(ast)
             except Exception as e:
                 raise Decline(f"build-raised:{innermost_funsor_frame(e)}")
             bad = [n for n in t.inputs if "__BOUND" in n]
